@@ -104,6 +104,9 @@ package storage
 //@ ghost rec_uk (Array Int Int)
 //@ ghost rec_rev (Array Int (_ BitVec 64))
 //@ ghost it_pos Int
+// the bounds and the snapshot timestamp the live iterator was opened with
+//@ ghost it_lo Slice
+//@ ghost it_hi Slice
 
 // A forward iteration over [start, end) yields the stored records of the interval in ascending
 // key order from one snapshot. The store holds only records written by the backend in the scanned
@@ -111,21 +114,26 @@ package storage
 // user key first and revision second, and equal ranks mean equal user keys.
 //@ func KvStorage.Iter(ctx, start, end, timestamp, limit) (it, err)
 //@   assumed
-//@   modifies ghost.rec_n ghost.rec_key ghost.rec_val ghost.rec_uk ghost.rec_rev ghost.it_pos
-//@   ensures [non-nil] err == nil ==> it != nil && it_pos == 0 && rec_n >= 0 && rec_n <= 0x1000000000000
-//@   ensures [sorted-by-key-then-revision] err == nil ==> sorted_seq(rec_uk, rec_rev, rec_n)
-//@   ensures [records-are-internal-keys] err == nil ==> forall(i, 0 <= i && i < rec_n, is_internal_key(rec_key[i]) && rec_rev[i] == key_rev(rec_key[i]) && rec_key[i].obj <= alloc && rec_val[i].obj <= alloc && (rec_rev[i] == 0 ==> len(rec_val[i]) >= 8))
+//@   modifies ghost.rec_n ghost.rec_key ghost.rec_val ghost.rec_uk ghost.rec_rev ghost.it_pos ghost.it_lo ghost.it_hi
+//@   ensures [non-nil] err == nil ==> it != nil && it_pos == 0 && rec_n >= 0 && rec_n <= 0x1000000000000 && it_lo == start && it_hi == end
+// start <= end: ascending over [start, end); start > end: descending from start (inclusive) down to end (exclusive)
+//@   ensures [sorted-by-key-then-revision] err == nil && bytes_cmp(start, end) <= 0 ==> sorted_seq(rec_uk, rec_rev, rec_n)
+//@   ensures [descending-stays-within-bounds] err == nil && bytes_cmp(start, end) > 0 ==> forall(i, 0 <= i && i < rec_n, bytes_cmp(rec_key[i], start) <= 0 && bytes_cmp(rec_key[i], end) > 0)
+// (len >= 14: user keys are not empty -- every stored key lies under the configured prefix)
+//@   ensures [records-are-internal-keys] err == nil ==> forall(i, 0 <= i && i < rec_n, is_internal_key(rec_key[i]) && len(rec_key[i]) >= 14 && rec_rev[i] == key_rev(rec_key[i]) && rec_key[i].obj <= alloc && rec_val[i].obj <= alloc && (rec_rev[i] == 0 ==> len(rec_val[i]) >= 8))
 // assumed about the stored data: an index record's value (8 revision bytes, optionally one flag byte)
 // never equals the 9 bytes "tombstone" -- that would take revision 0x746f6d6273746f6e with flag 'e'
 //@   ensures [index-values-are-not-the-deletion-marker] err == nil ==> forall(i, 0 <= i && i < rec_n, pair_hint(i, i) ==> (rec_rev[i] == 0 ==> !dead(i)))
 //@   ensures [rank-is-the-user-key] err == nil ==> ranks_are_keys(rec_uk, rec_key, heap_bytes, rec_n)
 
 // dels counts unconditional deletes and compare-and-deletes issued (C07)
+// last_del is the key named by the last unconditional delete
 //@ ghost dels Int
+//@ ghost last_del Slice
 //@ func KvStorage.Del(ctx, key) (err)
 //@   assumed
-//@   modifies ghost.dels
-//@   ensures [counted] dels == old(dels)+1
+//@   modifies ghost.dels ghost.last_del
+//@   ensures [counted] dels == old(dels)+1 && last_del == key
 
 //@ func KvStorage.DelCurrent(ctx, iter) (err)
 //@   assumed
